@@ -5,4 +5,6 @@ import SquidModel.Properties.C18
 #print axioms SquidModel.C18.complete_means_whole_response_or_error_page
 #print axioms SquidModel.C18.identical_copies
 #print axioms SquidModel.C18.unshareable_never_served_to_collapsed_partial
+#print axioms SquidModel.C18.unshareable_never_served_to_collapsed_fixed
 #print axioms SquidModel.C18.released_entry_shares_private_reply_counterexample
+#print axioms SquidModel.C18.current_variant
